@@ -99,6 +99,14 @@ def run(ctx):
             for lim in (3, 50):
                 extra.append(dict(entry="cachedseq", limit=lim, nlp=nlp, fuzzy=True, thr=0, ponly=False, pboost=False, allplat=True, plats=[],
                                   nocross=False, boost=False, query=qk, corpus="mix", prime="none"))
+    # context boosts that are not factors (zero, below one, negative, not a number): every score still finite and non-negative
+    for bv in (9, 10):
+        for entry in ("universal", "cached", "monitored"):
+            for nlp in (False, True):
+                for raw in ("frobnicate widget", "widget number", "number item", "item", "frobnicate", "widget widget number"):
+                    for corpus in ("mix", "tie"):
+                        extra.append(dict(entry=entry, limit=50, nlp=nlp, fuzzy=False, thr=0, ponly=False, pboost=False, allplat=True, plats=[],
+                                          nocross=False, boost=True, boostvar=bv, query="raw", raw=raw, corpus=corpus))
     extra += shipped_scenarios(rnd, 60 if q else 1500)
     tr, info, ok, rej = engine.run_cases(ctx, scen + extra, ["C01"])
     for x in rej:
